@@ -97,7 +97,8 @@ def _header_name_to_cgi(name):
 def _build_http_response(smtp_reply):
     code = smtp_reply.code
     headers = []
-    info = {'message': smtp_reply.message}
+    # A header value cannot span lines, a multi-line reply is folded.
+    info = {'message': ' '.join((smtp_reply.message or '').splitlines())}
     if smtp_reply.command:
         command = smtp_reply.command
         if isinstance(command, bytes):
